@@ -114,6 +114,31 @@ fn file_roundtrip(rng: &mut Rng, idx: usize, dir: &std::path::Path) -> Vec<Strin
         out.push(verdict("file_roundtrip_f32", &format!("#{idx} len={len} sink-alive={}", keep.is_some()), drain_all(&mut src, &o, 3), &data));
         drop(keep);
     }
+    // a backlog larger than any per-call limit a sink might have: default-size stream, 70 000 … 300 000 samples
+    // waiting before the first work() call
+    if idx % 5 == 0 {
+        let path = dir.join(format!("rt{idx}.big"));
+        let n = rng.range(70_000, 300_000);
+        let data: Vec<u64> = (0..n).map(|i| ((i as u64).wrapping_mul(2654435761) & 0xffff_ffff)).collect();
+        rustradio::verif::set_stream_size(0);
+        let (w, r) = new_stream::<u32>();
+        rustradio::verif::set_stream_size(4096);
+        let mut sink = FileSink::new(r, &path, Mode::Create).unwrap();
+        {
+            let mut wb = w.write_buf().unwrap();
+            for i in 0..n {
+                wb.slice()[i] = data[i] as u32;
+            }
+            wb.produce(n, &[]);
+        }
+        for _ in 0..8 {
+            sink.work().unwrap();
+        }
+        let bytes = std::fs::read(&path).unwrap_or_default();
+        let got: Vec<u64> = bytes.chunks_exact(4).map(|c| u32::from_le_bytes([c[0], c[1], c[2], c[3]]) as u64).collect();
+        out.push(verdict("file_sink_backlog", &format!("#{idx} samples={n}"), Ok(got), &data));
+        drop(sink);
+    }
     // complex
     {
         let path = dir.join(format!("rt{idx}.c32"));
